@@ -118,6 +118,23 @@ pub fn scenarios(cs: usize, fat: u8) -> Vec<Scenario> {
     add("unmount", vec![Op::Close { h: 1 }, Op::Stats], Target::Unmount, &mut v);
     add("unmount-after-alloc", vec![wr(1, cs), Op::Close { h: 1 }], Target::Unmount, &mut v);
     add("drop-fs(exempt)", vec![wr(1, cs), Op::Close { h: 1 }], Target::DropFs, &mut v);
+    // a directory that spans several clusters (16 slots per 512-byte cluster; long names take 3-4 slots each)
+    let mut big: Vec<Op> = vec![cd("big")];
+    for i in 0..14 {
+        big.push(Op::CreateFile { dir: DirRef::Root, path: format!("big/entry number {:02} with a long name.dat", i), slot: None });
+    }
+    add("list-multi-cluster-dir", { let mut b = big.clone(); b.push(Op::OpenDir { dir: DirRef::Root, path: "big".into(), slot: Some(3) }); b }, Target::Op(Op::List { dir: DirRef::H(3) }), &mut v);
+    add("open-last-in-multi-cluster-dir", big.clone(), Target::Op(Op::OpenFile { dir: DirRef::Root, path: "big/entry number 13 with a long name.dat".into(), slot: Some(3) }), &mut v);
+    add("create-in-multi-cluster-dir", big.clone(), Target::Op(cf("big/one more entry with a long name that needs a new cluster maybe.dat", 3)), &mut v);
+    add("remove-in-multi-cluster-dir", big.clone(), Target::Op(Op::Remove { dir: DirRef::Root, path: "big/entry number 12 with a long name.dat".into() }), &mut v);
+    add("rename-into-multi-cluster-dir", big.clone(), Target::Op(Op::Rename { sdir: DirRef::Root, src: "second.bin".into(), ddir: DirRef::Root, dst: "big/second moved here with a long name.bin".into() }), &mut v);
+    add("move-dir-out-of-multi-cluster-dir", { let mut b = big.clone(); b.push(cd("big/inner dir")); b }, Target::Op(Op::Rename { sdir: DirRef::Root, src: "big/inner dir".into(), ddir: DirRef::Root, dst: "inner dir at top".into() }), &mut v);
+    add("read-across-cluster-boundary", vec![Op::Seek { h: 1, whence: 0, off: (cs - 10) as i64 }, Op::Read { h: 1, len: 10 }], Target::Op(Op::Read { h: 1, len: 40 }), &mut v);
+    add("write-across-cluster-boundary", vec![Op::Seek { h: 1, whence: 0, off: (cs - 10) as i64 }, wr(1, 10)], Target::Op(wr(1, 40)), &mut v);
+    add("open-through-dotdot", vec![], Target::Op(Op::OpenFile { dir: DirRef::Root, path: "dir one with a long name/e/../e/f/deep file name.txt".into(), slot: Some(3) }), &mut v);
+    add("create-through-dir-handle", vec![Op::OpenDir { dir: DirRef::Root, path: "dir one with a long name/e".into(), slot: Some(3) }], Target::Op(Op::CreateFile { dir: DirRef::H(3), path: "f/created through a handle.txt".into(), slot: Some(4) }), &mut v);
+    add("set-times-flush", vec![Op::SetTimes { h: 1, which: 0, date: 0x5021, time: 0x6000, tenth: 7 }], Target::Op(Op::Flush { h: 1 }), &mut v);
+    add("close-dir-handle(drop)", vec![Op::OpenDir { dir: DirRef::Root, path: "dir one with a long name".into(), slot: Some(3) }, Op::CreateFile { dir: DirRef::H(3), path: "x.txt".into(), slot: None }], Target::Op(Op::Close { h: 3 }), &mut v);
     v.push(Scenario { name: "format".into(), setup: vec![], hint_from_end: None, target: Target::Format });
     if fat == 32 {
         // allocation scan that starts from a hint near the end and has to wrap around
